@@ -83,6 +83,16 @@ def run(job):
             check_normal_form(job, inv, 1 / O.F(r.rate),
                               ("inverted", repr(um), repr(ta), mode), mode)
             job.case("rate/inverted-direction", (repr(um), repr(ta)), ok, "", "")
+            # a rate that is itself the result of an inversion is inverted like
+            # any other rate: the reciprocal of *its* rate, not the original
+            if 1 / O.F(inv.rate) >= Fraction(1, 10 ** 6):
+                back = inv.inverted()
+                check_normal_form(job, back, 1 / O.F(inv.rate),
+                                  ("inverted-twice", repr(um), repr(ta), mode),
+                                  mode)
+                job.case("rate/inverted-twice-direction", (repr(um), repr(ta)),
+                         back.unit_currency is cur["USD"] and
+                         back.term_currency is cur["EUR"], "", "")
     W.set_mode("ROUND_HALF_EVEN")
     if job.shard == 0:
         bad = [(cur["USD"], 1, cur["USD"], 1), (cur["USD"], Decimal("2.5"), cur["EUR"], 1),
